@@ -7,10 +7,12 @@ Line-protocol driver for C09: runs the StateDB model on the op lines the Go harn
   vc|vu a role status token stake misc   vr a   aw operator nonce amount   rw i,j,..   dg dlg val amt
   prep thash txIndex   snap   rev id   fin 0|1   root 0|1                               -> ok | ok <id> | crash
   dump                                    canonical text of the live state              -> <text>
+  gstat                                   steps outside the theorems' guard / steps     -> <n> <m>
   tdump                                   canonical text of the trie contents           -> <text>
 After `crash` the state is left unchanged (the harness ends the case there).
 -/
 import YouVerif.C09.Model
+import YouVerif.C09.Guard
 import YouVerif.Common.Hex
 open YouVerif.Common YouVerif.C09
 
@@ -23,6 +25,8 @@ structure Univ where
 structure DS where
   s : State := {}
   u : Univ := {}
+  opsSeen : Nat := 0      -- model steps executed since `reset`
+  guardFail : Nat := 0    -- of these, steps outside the theorems' guard `OpOK` (evaluated by `opOKB`)
 
 /-- A finite table standing for a total map.  A function-valued definition is compiled with its lookup
 argument as an extra parameter, so a "function built from a table" would rebuild the table on every lookup;
@@ -156,6 +160,7 @@ def stepLine (ds : DS) (line : String) : DS × String :=
     match natList? a, natList? k, natList? h, natList? v with
     | some a, some k, some h, some v => ({ ds with u := { accs := a, keys := k, hashes := h, vals := v } }, "ok")
     | _, _, _, _ => (ds, "bad-op")
+  | ["gstat"] => (ds, s!"{ds.guardFail} {ds.opsSeen}")
   | ["dump"] => (ds, dump ds)
   | ["tdump"] => (ds, tdump ds)
   | ["vu", a, r, st, t, sk, m] =>
@@ -165,7 +170,9 @@ def stepLine (ds : DS) (line : String) : DS × String :=
       match ds.s.v.get a with
       | none => (ds, "ok")
       | some old =>
-        match step ds.s (.val (.update a { old with role := r, status := st, token := t, stake := sk, misc := m })) with
+        let op : Op := .val (.update a { old with role := r, status := st, token := t, stake := sk, misc := m })
+        let ds := { ds with opsSeen := ds.opsSeen + 1, guardFail := ds.guardFail + (if opOKB ds.s op then 0 else 1) }
+        match step ds.s op with
         | some s' => ({ ds with s := normalize ds.u s' }, "ok")
         | none => (ds, "crash")
     | _, _, _, _, _, _ => (ds, "bad-op")
@@ -173,6 +180,7 @@ def stepLine (ds : DS) (line : String) : DS × String :=
     match parseOp f with
     | none => (ds, "bad-op")
     | some op =>
+      let ds := { ds with opsSeen := ds.opsSeen + 1, guardFail := ds.guardFail + (if opOKB ds.s op then 0 else 1) }
       match step ds.s op with
       | none => (ds, "crash")
       | some s' =>
